@@ -110,6 +110,12 @@ def build(mpc, orders=None, mp_lifted=()):
         op('neg', 1, lambda a: -a, lambda v, R=R: R.neg(v[0]))
         op('rdiv_pub', 1, lambda a: 1 / a, lambda v, R=R: R.inv(v[0]) if v[0] else None)
         op('mul_pub', 1, lambda a, q=q: a * (q - 1), lambda v, R=R, q=q: R.mul(v[0], R.from_int(q - 1)))
+        # public integers outside range(q) are reduced like field elements made from them (matters for lifted fields)
+        op('add_int_big', 1, lambda a, q=q: a + (q + 1), lambda v, R=R, q=q: R.add(v[0], R.from_int(q + 1)))
+        op('sub_int_neg', 1, lambda a: a - (-1), lambda v, R=R: R.sub(v[0], R.from_int(-1)))
+        op('eq_int_big', 1, lambda a, q=q: a == (2 * q + 1), lambda v, R=R, q=q: int(v[0] == R.from_int(2 * q + 1)))
+        op('ctor_int_big', 1, lambda a, T=T, q=q: a * T(q + 2) if not isinstance(T, exact.Dummy) else None,
+           lambda v, R=R, q=q: R.mul(v[0], R.from_int(q + 2)))
         for e in ((-2, -1, 0, 1, 2, 3, q - 1, q) if q <= 27 else (-1, 0, 2, 3, 254)):
             op(f'pow{e}', 1, lambda a, e=e: a ** e, lambda v, R=R, e=e: R.pow(v[0], e) if (e >= 0 or v[0]) else None)
         op('eq', 2, lambda a, b: a == b, lambda v: int(v[0] == v[1]))
